@@ -458,11 +458,12 @@ PROPERTIES = {
                     'non-option token, in order -- for every command line of any length; main() turns Err into the usage path that ends in process::exit; (2) the translator is never created when stdout is a terminal and the target is MessagePack; '
                     '(3) main() returns normally (status 0) only after every path was translated with result Ok and flushed; every failure leaves through process::exit; (4) the only statuses passed to process::exit are 0 (help / version), 1 and 2; '
                     '(5) each status is tied to its cause: the assumed contract of process::exit demands, at EVERY call site of the verified text (main(), the expanded xt_bail! / xt_bail_path! macros, parse_args), that code == 2 exactly when the token-stream model calls this process\' command line invalid, '
-                    'that code == 0 only for a help / version request, and code == 1 only for a valid command line -- so a usage error can only end in 2, a help request only in 0, and a failure while translating only in 1 (main()\'s loop carries the invariant "the command line is valid").',
+                    'that code == 0 only for a help / version request, and code == 1 only for a valid command line -- so a usage error can only end in 2, a help request only in 0, and a failure while translating only in 1 (main()\'s loop carries the invariant "the command line is valid"); '
+                    '(6) silence on stdout for usage errors: the assumed contracts of std::io::stdout() and of print_long_help demand a command line that is not invalid (respectively a help request), so on an invalid command line the verified text never obtains the stdout handle.',
         assumptions=['lexopt splits the command line into the token stream the model describes (stand-in: next() / value() pop one token; attached values count as two tokens)',
                      'process::exit(code) terminates with that status', 'stand-ins of U-MAIN-V (see C14)'],
         not_covered=['the exit(1) fallback of pipecheck::exit_for_broken_pipe on non-Unix systems (outside this unit)',
-                     'message texts on stderr, nothing on stdout for usage errors, the help texts', 'pseudo-terminal detection itself (std)', 'lexopt\'s own splitting rules (--opt=value, combined short options, `--`)']),
+                     'message texts on stderr, the help texts, println!-style writes that bypass io::stdout() (none in the verified text; Verus would not accept them unannotated)', 'pseudo-terminal detection itself (std)', 'lexopt\'s own splitting rules (--opt=value, combined short options, `--`)']),
     'C15': dict(
         explanation='Verus (U-MAIN-V) proves on the verbatim main() the invariant "nothing is pending in the translator at a loop head": every finished input has been flushed with result Ok before the next input '
                     'is opened, so an error exit (process::exit runs no destructors) happens only while the CURRENT input is in progress and cannot lose output of a finished one; at normal return nothing is unflushed. '
